@@ -460,8 +460,13 @@ static void *_rcp_thread(void *args)
 #endif
     a->start = time(NULL);
     dsh_mutex_lock(&thd_mutex);
-    a->state = DSH_RCMD;
+    if (a->state == DSH_CANCELED)
+        result = DSH_CANCELED;  /* canceled by ^C ^Z before we got to run */
+    else
+        a->state = DSH_RCMD;
     dsh_mutex_unlock(&thd_mutex);
+    if (result == DSH_CANCELED)
+        goto out;               /* stay canceled: no connect, no state write */
 
     /* For reverse copy, the host needs to be appended to the end of the command */
     if (a->pcp_Popt) {
@@ -491,6 +496,7 @@ static void *_rcp_thread(void *args)
     if ((a->rc == 0) && (rc > 0))
         a->rc = rc;
 
+out:
     /* Signal dsh() so another thread can replace us */
     dsh_mutex_lock(&threadcount_mutex);
     threadcount--;
@@ -665,8 +671,13 @@ static void *_rsh_thread(void *args)
 
     /* establish the connection */
     dsh_mutex_lock(&thd_mutex);
-    a->state = DSH_RCMD;
+    if (a->state == DSH_CANCELED)
+        result = DSH_CANCELED;  /* canceled by ^C ^Z before we got to run */
+    else
+        a->state = DSH_RCMD;
     dsh_mutex_unlock(&thd_mutex);
+    if (result == DSH_CANCELED)
+        goto out;               /* stay canceled: no connect, no state write */
 
     rcmd_connect (a->rcmd, a->host, a->addr, a->luser, a->ruser,
                   a->cmd, a->nodeid, a->dsh_sopt);
@@ -768,6 +779,7 @@ static void *_rsh_thread(void *args)
         errx("%p: terminating all processes\n");
     }
 
+out:
     /* Signal dsh() so another thread can replace us */
     dsh_mutex_lock(&threadcount_mutex);
     threadcount--;
